@@ -25,7 +25,12 @@ func VH_C14_Push(p []int) {
 		return sentinel
 	})
 	verifAssert(verifFuncID(cfg.ppf) != 0, "policy-installed")
-	cfg.err = nil
+	// an older error may be pending when the batch is pushed
+	var prior error
+	if nondetChoice(2) == 1 {
+		prior = errorf("older error")
+	}
+	cfg.err = prior
 	vals := make([]any, m)
 	for k := range vals {
 		switch nondetChoice(3) {
@@ -67,7 +72,7 @@ func VH_C14_Push(p []int) {
 	if rejected {
 		verifAssert(s.Err() == sentinel, "Err-is-the-policy-error")
 	} else {
-		verifAssert(s.Err() == nil, "Err-nil-without-rejection")
+		verifAssert(s.Err() == prior, "Err-untouched-without-rejection")
 	}
 	// removing the policy restores the built-in behaviour
 	s.SetPushPolicy(nil)
@@ -205,6 +210,43 @@ func VH_C14_StackClosures(p []int) {
 		s.SetPresentationPolicy(nil)
 		verifAssert(s.String() == builtinString, "both-removed")
 	}
+	verifReach("end")
+}
+
+// The validity closure alone decides, also for Conditions the built-in rules
+// would reject.  p: which (0 empty keyword, 1 nil expression, 2 bare Init,
+// 3 invalid operator code)
+func VH_C14_CondValidityDecides(p []int) {
+	var c Condition
+	switch p[0] {
+	case 0:
+		c = Cond("", Eq, "v")
+	case 1:
+		c = Cond("kw", Eq, nil)
+	case 2:
+		c.Init()
+	case 3:
+		c = Cond("kw", ComparisonOperator(9), "v")
+	}
+	c.SetErr(nil)
+	verifAssert(c.Valid() != nil, "built-in-rejects")
+	sentinel := errorf("closure verdict")
+	bad := nondetBool()
+	c.SetValidityPolicy(func(...any) error {
+		if bad {
+			return sentinel
+		}
+		return nil
+	})
+	if bad {
+		verifAssert(c.Valid() == sentinel, "closure-rejects-with-that-very-error")
+		verifAssert(c.String() == "", "rejected-renders-empty")
+	} else {
+		verifAssert(c.Valid() == nil, "closure-accepts-alone-decides")
+		_ = c.String() // must not panic whatever the parts are
+	}
+	c.SetValidityPolicy(nil)
+	verifAssert(c.Valid() != nil, "built-in-restored")
 	verifReach("end")
 }
 
